@@ -33,7 +33,7 @@ def model_checks(tier):
             dict(name='prune_wide_g', module='MC_Prune.tla', gen=True, workers=1, cfg=prune_cfg(1, 1, 2, [0, 1], 'FALSE', 'TRUE', invs=False)),
             dict(name='proof_sound', module='MC_Proof.tla', workers=16, timeout=2400, heap='12g', cfg=pcfg(1, 2, 1) if q else pcfg(2, 2, 1)),
             dict(name='proof_neg_weak', module='MC_Proof.tla', workers=4, cfg=neg, expect_violation='WeakSound'),
-            dict(name='prune_sym', module='MC_Prune.tla', workers=8, timeout=1500, cfg=prune_cfg(2, 1 if q else 2, 2, [0, 1], 'TRUE', 'FALSE'))]
+            dict(name='prune_sym', module='MC_Prune.tla', workers=8 if q else 16, timeout=1500 if q else 5400, cfg=prune_cfg(2, 1 if q else 2, 2, [0, 1], 'TRUE', 'FALSE'))]
 
 
 def mproof_abs(child_obj, child_idx, h=None, d=None, t=3):
